@@ -33,12 +33,14 @@ CONSTANTS NTimers,      \* timer objects 1..NTimers
           AfterSet,     \* subset of 1..NTimers that are dispatch_after blocks, the others are timer sources
           NClocks,      \* clocks 1..NClocks
           Horizon,      \* time stops advancing at Horizon (model bound)
-          StartDeltas,  \* set_timer / dispatch_after: start = now + d, d in StartDeltas (may be negative)
+          PastDelta,    \* set_timer / dispatch_after: start = now + d, d in -PastDelta..MaxDelta
+          MaxDelta,     \*   (a start in the past, now, or ahead)
           Intervals,    \* intervals for set_timer; INF = one-shot (DISPATCH_TIME_FOREVER)
           MaxCalls,     \* bound on client control calls (set_timer, suspend, resume, cancel)
           MaxFire,      \* cap of the per-timer invocation counter used by the liveness property
           Mut           \* "none" or a spec mutation
 
+StartDeltas == (0 - PastDelta)..MaxDelta
 Timers == 1..NTimers
 Clocks == 1..NClocks
 INF == 1000                                   \* >= INT64_MAX in the code: never reached
